@@ -22,13 +22,13 @@ def register(reg):
                       ('property', 'implies(not spec_token_matches(old_self, old_self.pos, token), result is None and self.pos == old_self.pos)'),
                       *KEEP])
     # regex engine: external.  What is assumed: a successful match ends at or after the position.
-    contract(reg, f'{T}:TextLinesCursor._matchre_fast', P, {'self': 'Cursor', 'pattern': 'int'}, ret='bool', modifies=['self'], verify=False,
-             ensures=['result == (pattern != 0 and uf_re_end(old_self.textstr, old_self.pos, pattern) >= 0)',
+    contract(reg, f'{T}:TextLinesCursor._matchre_fast', P, {'self': 'Cursor', 'pattern': 'Val'}, ret='bool', modifies=['self'], verify=False,
+             ensures=['result == (bool(pattern) and uf_re_end(old_self.textstr, old_self.pos, pattern) >= 0)',
                       'implies(result, self.pos == uf_re_end(old_self.textstr, old_self.pos, pattern))',
                       'implies(result, old_self.pos <= self.pos and self.pos <= self.len)',
                       'implies(not result, self.pos == old_self.pos)', *KEEP],
              note='re.match is external: a match at pos ends in [pos, len]; it may be empty')
-    contract(reg, f'{T}:TextLinesCursor._eat_regex', P, {'self': 'Cursor', 'regex': 'int'}, ret='bool', modifies=['self'],
+    contract(reg, f'{T}:TextLinesCursor._eat_regex', P, {'self': 'Cursor', 'regex': 'Val'}, ret='bool', modifies=['self'],
              ensures=[('property', 'self.pos >= old_self.pos'), 'self.pos <= self.len',
                       ('property', 'result == (self.pos > old_self.pos)'),
                       ('property', 'spec_stable(self, self.pos, regex)'), *KEEP],
